@@ -844,7 +844,7 @@ class TextXMetaModel(DebugPrinter):
                     }
                 )
 
-        if not model:
+        if model is None:
             # Read model from file
             if not model_str:
                 with open(file_name, encoding=encoding) as f:
